@@ -138,6 +138,13 @@ def handle (op : String) (args : List Val) : Option Val :=
         | [] => 0
         | (p, _) :: _ => perParam * (p.length : Rat) + 32 * (2 * nleaves : Nat)
     some (.list ((compRun rotated (quantOf qt) newBits ⟨bits0, root⟩ rounds).map renderOut))
+  | "c10.tablekeys", [rounds] => do
+    -- key lists of the client-state table after each round (participants given by id), starting empty
+    let rounds ← rounds.toNatss?
+    let res := (rounds.foldl (fun (acc : Table Nat Unit × List (List Nat)) ids =>
+      let t := acc.1.setAll (ids.map fun i => (i, ()))
+      (t, acc.2 ++ [t.keys])) (([] : Table Nat Unit), [])).2
+    some (.list (res.map Val.ofNats))
   | "c10.window", [w, ns] => do
     let w ← w.toRatss?; let ns ← ns.toRatss?
     some (.list ((windowRun w ns).map fun win => .list (win.map Val.ofRats)))
